@@ -41,6 +41,29 @@ def histories(tier, rnd):
     hs.append({"id": n, "steps": [{"c": 0, "entry": "stmt", "code": "{ RdV = 4 / 2; }"}, {"c": 0, "entry": "stmt", "code": "{ RsV = 1; }"},
                                   {"c": 0, "entry": "insn", "code": "{ i++; RdV = unknown_fn(RsV); }"}, {"c": 0, "entry": "insn", "code": "{ RdV = RsV + 1; }"},
                                   {"c": 0, "entry": "stmt", "code": "{ RdV = clz32(RsV); }"}, {"c": 1, "entry": "stmt", "code": "{ RdV = clz32(RsV); }"}]})
+    # type spellings: the same declarations / casts with every spelling of the C base types, in random order (a type object that one
+    # compilation re-labels -- `unsigned int`, `const int` -- must not be seen by the next)
+    specs = ["int", "unsigned int", "unsigned", "const int", "const unsigned int", "int32_t", "uint32_t", "size4u_t", "size4s_t", "int64_t",
+             "uint64_t", "size8u_t", "size8s_t", "int8_t", "uint8_t", "int16_t", "uint16_t", "const uint32_t", "const int64_t"]
+    fam = []
+    for t in specs:
+        fam.append("{ %s a = RsV; RdV = (a >> 1); }" % t)
+        if not t.startswith("const"):
+            fam.append("{ RdV = (((%s) RsV) >> 1); }" % t)
+            fam.append("{ %s a; a = RssV; RddV = a * 3; }" % t)
+    for j in range(4 if tier == "quick" else 30):
+        order = fam[:]
+        rnd.shuffle(order)
+        hs.append({"id": n + 200 + j, "steps": [{"c": 0, "entry": rnd.choice(["stmt", "insn"]), "code": c_} for c_ in order]})
+    # prefixes of random permutations of the SHIPPED corpus (single-part behaviours), through transform_insn
+    try:
+        beh = k2.run_python([{"id": 0, "op": "behaviors"}], want_sig=False, nproc=1)["results"][0]["behaviors"]
+        singles = sorted(b[0] for b in beh.values() if len(b) == 1)
+        for j in range(6 if tier == "quick" else 60):
+            pick = rnd.sample(singles, 14)
+            hs.append({"id": n + 300 + j, "steps": [{"c": rnd.choice([0, 0, 1]), "entry": "insn", "code": c_} for c_ in pick]})
+    except Exception:
+        pass
     # counter sweep: the same two-hybrid behaviours after 0..12 (thorough: also 97..101) earlier hybrids, so that the temporaries' numbers
     # cross every digit-length boundary (h_tmp9 / h_tmp10, h_tmp99 / h_tmp100)
     probes = ["{ int32_t i = RsV; RdV = (i++) * 10 + (i--); }", "{ RdV = clz32(RsV) + clo32(RtV); }", "{ int32_t a = RsV; RdV = fbrev(a++) + a--; ReV = a; }"]
